@@ -314,10 +314,14 @@ func (rw *rewriter) globalPass() {
 					x.Sel.Name = "Yield"
 					rw.used = true
 				case "GOMAXPROCS":
-				id.Name = "simrt"
-				rw.used = true
-				rep.Counts["runtime.GOMAXPROCS"]++
-			case "NumGoroutine", "Goexit", "LockOSThread":
+					id.Name = "simrt"
+					rw.used = true
+					rep.Counts["runtime.GOMAXPROCS"]++
+				case "Goexit":
+					// passes through: the real Goexit runs the deferred calls of the task's goroutine,
+					// the outermost of which reports a regular exit of the task to the scheduler
+					rep.Counts["runtime.Goexit"]++
+				case "NumGoroutine", "LockOSThread":
 					rw.errorf(x.Pos(), "runtime.%s is not modelled by the simulator", x.Sel.Name)
 				}
 			case "context":
